@@ -11,3 +11,5 @@ if [ ! -x $V/bin/python ] || ! $V/bin/python -c "import z3, jsonschema, pygom" >
   echo "import site; site.addsitedir('/venv/lib/python3.12/site-packages')" > $V/lib/python3.12/site-packages/_repo.pth
 fi
 $V/bin/python -c "import z3, cvc5, jsonschema, pygom; print('overlay ok', z3.get_version_string())"
+# Lean lemmas used by C01/C04/C10/C12/C20 (cold start of Mathlib ~3 min; cached by file hash afterwards)
+./lemmas/check.sh || echo "WARNING: Lean lemmas not checked"
